@@ -1,4 +1,5 @@
 import VarmqVerif.Proofs.Codec
+import VarmqVerif.Proofs.DispSkip
 import VarmqVerif.Tie.Facts
 /-!
   C12 — persistent/distributed jobs keep ID and payload; bad entries are isolated (partial by
@@ -18,4 +19,27 @@ theorem invalid_status_rejected {π : Type} (e : Envelope π) (h : ∀ s, e.stat
 /-- the status strings of `Status()` and of `parseToJob` in the current tree are the model's table -/
 theorem strings_of_tree : Generated.jobStatusStrings = statusStrings ∧ Generated.parseStatusStrings = statusStrings :=
   ⟨Tie.job_status_strings, Tie.parse_status_strings⟩
+/-! "A stored entry that cannot be decoded is … skipped without blocking, reordering or corrupting the jobs behind it", at the
+    level of the dispatcher (model `Disp`: the undecodable entry is dequeued — `deq j` — and its slot is given back without the
+    worker function having been entered — `done j`; adapter-backed executions, undecodable entries included, are replayed
+    through this model). -/
+
+/-- skipping costs no capacity: the jobs in flight after the skip are exactly those before the entry was dequeued -/
+theorem skip_restores_inflight {s s1 s2 : Disp.State} {j : Nat} (h1 : Disp.step s (.deq j) = .ok s1)
+    (h2 : Disp.step s1 (.done j) = .ok s2) : Disp.inflight s2 = Disp.inflight s := Disp.skip_restores_inflight h1 h2
+
+/-- … so whatever the dispatcher could take before the bad entry it can take after it (no blocking) -/
+theorem next_deq_after_skip {s s1 s2 : Disp.State} {j k : Nat} (h1 : Disp.step s (.deq j) = .ok s1)
+    (h2 : Disp.step s1 (.done j) = .ok s2) (hk : k ∉ s.deqd) (hkj : k ≠ j) : ∃ s3, Disp.step s2 (.deq k) = .ok s3 :=
+  Disp.next_deq_after_skip h1 h2 hk hkj
+
+/-- the hand-out order and the execution order of everybody else are untouched (no reordering), and the skipped entry never
+    reaches the worker function -/
+theorem skip_keeps_order {s s1 s2 : Disp.State} {j : Nat} (h1 : Disp.step s (.deq j) = .ok s1)
+    (h2 : Disp.step s1 (.done j) = .ok s2) : s2.deqd = s.deqd ++ [j] ∧ s2.entered = s.entered ∧ s2.maxLim = s.maxLim :=
+  Disp.skip_keeps_order h1 h2
+
+theorem skip_never_runs {s1 s2 : Disp.State} {j : Nat} (h2 : Disp.step s1 (.done j) = .ok s2) :
+    ∀ s3, Disp.step s2 (.enter j) ≠ .ok s3 := Disp.skip_never_runs h2
+
 end VarmqVerif.Props.C12
